@@ -142,13 +142,6 @@ Proof.
     repeat match goal with H : (_ <=? _) = true |- _ => apply N.leb_le in H end; lia.
 Qed.
 
-(* "%2f" / "%2F" *)
-Definition starts_enc_slash (s : str) : bool :=
-  match s with
-  | c0 :: c1 :: c2 :: _ => (c0 =? PCT) && (c1 =? 50) && ((c2 =? 102) || (c2 =? 70))
-  | _ => false
-  end.
-
 Theorem unquote_starts_slash s :
   starts_with [SL] (unquote s) = starts_with [SL] s || starts_enc_slash s.
 Proof.
